@@ -150,6 +150,36 @@ def run_check(tier, seed):
                 run.nontrivial.add(base[i][1])
         run.samples.append({"stream": "env_matrix_stdin_none", "argv": base_cmds[0][0], "output": base[0][1].decode("utf-8", "replace")[:200]})
 
+        # ---------------- stream 1a: the bytes on stdin decide, not how fast they arrive: a producer that writes late (after 1.5 s and
+        # after 3 s, in two pieces) must give what the same document gives when it is there at once
+        st = run.streams.setdefault("slow_stdin_producers", {"cases": 0})
+        slow_docs = [c for c in cases if c.get("stdin_text") and c["cmd"] == "version"][:4]
+
+        def slow(ic):
+            c, delay = ic
+            p = subprocess.Popen([ZERV, c["cmd"]] + c["argv"] + c["extra"], stdin=subprocess.PIPE, stdout=subprocess.PIPE, stderr=subprocess.PIPE, env=dict(BASE_ENV, TZ="UTC", LANG="C"), cwd="/tmp")
+            half = len(c["stdin_text"]) // 2
+            time.sleep(delay)
+            try:
+                p.stdin.write(c["stdin_text"][:half]); p.stdin.flush()
+                time.sleep(delay / 2)
+                p.stdin.write(c["stdin_text"][half:]); p.stdin.close()
+            except BrokenPipeError:
+                pass
+            out = p.stdout.read(); err = p.stderr.read(); p.wait()
+            return p.returncode, out, err
+        sj = [(c, d) for c in slow_docs for d in (1.5, 3.0)]
+        with concurrent.futures.ThreadPoolExecutor(max_workers=max(1, len(sj))) as ex:
+            sres = list(ex.map(slow, sj))
+        for (c, d), (rc, out, err) in zip(sj, sres):
+            st["cases"] += 1
+            run.evaluations += 1
+            i = cases.index(c)
+            brc, bout, berr = base[i]
+            if (rc == 0) != (brc == 0) or (rc == 0 and not c["clock"] and out != bout) or (rc == 0 and c["clock"] and mask_now(out.decode("utf-8", "replace"), now) != mask_now(bout.decode("utf-8", "replace"), now) and not c["formats_clock"]):
+                run.add_violation("oracle", {"stream": "slow_stdin_producers", "what": "the result depends on how late the stdin document arrives", "described": {"argv": [c["cmd"]] + c["argv"] + c["extra"], "delay_s": d,
+                                             "stdin": c["stdin_text"].decode("utf-8", "replace")[:800]}, "immediate": [brc, bout.decode("utf-8", "replace")[:300]], "delayed": [rc, out.decode("utf-8", "replace")[:300], err.decode("utf-8", "replace")[-200:]]}, True)
+
         # ---------------- stream 1b: Tera's built-in functions are reachable from templates (known finding, recorded with these inputs):
         # zerv's own variables and functions must stay deterministic next to them
         st = run.streams.setdefault("tera_builtins_in_templates", {"cases": 0, "environment_dependent(known)": 0, "own_part_deterministic": 0})
@@ -195,6 +225,10 @@ def run_check(tier, seed):
                 jobs.append((n, c, cwds[2], ["--directory=" + repos[n]], rng.choice(env_variants(rng, 1))))
                 if n == "ahead":
                     jobs.append((n, c, repos["ahead_subdir"], [], {"TZ": "UTC", "LANG": "C"}))       # from a subdirectory
+                    # a relative -C with leading ".." under a PWD variable that is right, stale (points elsewhere) or nonsense: the
+                    # directory is resolved by the operating system from the real working directory, never from $PWD
+                    for pwd in (repos["ahead_subdir"], repos["tagged_clean"], "/nonexistent/zz", ""):
+                        jobs.append((n, c, repos["ahead_subdir"], ["-C", "../.."], {"TZ": "UTC", "LANG": "C", "PWD": pwd, "OLDPWD": repos["no_tags"]}))
                 for e in env_variants(rng, 2 if q else 5):
                     e.pop("TZDIR", None)
                     jobs.append((n, c, repos[n], [], e))
